@@ -39,7 +39,76 @@ func TestMain(m *testing.M) {
 		vfC10Child(p, os.Getenv("VERIF_C10_DIR"))
 		os.Exit(0)
 	}
+	if d := os.Getenv("VERIF_C10_RESTART"); d != "" {
+		vfC10Restart(d)
+	}
 	os.Exit(m.Run())
+}
+
+// vfC10Restart is the daemon starting up again after the kill: the real runMain with the configuration in dir, on
+// a private D-Bus message bus, up to the moment it listens for the camera. Exit codes: 0 = it is waiting for a
+// camera connection, 5 = no message bus could be started here (the caller falls back to calling the clean-up
+// function directly), 6 = runMain returned (its error is printed).
+func vfC10Restart(dir string) {
+	bus, err := vfGetBus()
+	if err != nil {
+		fmt.Println("no private message bus:", err)
+		os.Exit(5)
+	}
+	defer bus.cmd.Process.Kill()
+	conf, err := ParseConfig(dir)
+	if err != nil {
+		fmt.Println("ParseConfig:", err)
+		bus.cmd.Process.Kill()
+		os.Exit(6)
+	}
+	os.Args = []string{"thermal-recorder", "-c", dir}
+	vfQuietLogs()
+	errc := make(chan error, 1)
+	go func() { errc <- runMain() }()
+	deadline := time.Now().Add(20 * time.Second)
+	for time.Now().Before(deadline) {
+		select {
+		case err := <-errc:
+			fmt.Println("runMain returned:", err)
+			bus.cmd.Process.Kill()
+			os.Exit(6)
+		default:
+		}
+		if fi, err := os.Stat(conf.FrameInput); err == nil && fi.Mode()&os.ModeSocket != 0 {
+			bus.cmd.Process.Kill()
+			os.Exit(0)
+		}
+		time.Sleep(2 * time.Millisecond)
+	}
+	fmt.Println("runMain did not start listening for the camera within 20 s")
+	bus.cmd.Process.Kill()
+	os.Exit(5)
+}
+
+// vfC10RunRestart spawns vfC10Restart for the configuration in dir.
+func vfC10RunRestart(dir string) (int, string) {
+	cmd := exec.Command(os.Args[0], "-test.run", "^$")
+	cmd.Env = append(os.Environ(), "VERIF_C10_RESTART="+dir, "VERIF_C10_CHILD=")
+	cmd.Dir = dir
+	done := make(chan struct{})
+	var out []byte
+	var err error
+	go func() { out, err = cmd.CombinedOutput(); close(done) }()
+	select {
+	case <-done:
+	case <-time.After(40 * time.Second):
+		cmd.Process.Kill()
+		<-done
+		return 5, "timeout"
+	}
+	if err == nil {
+		return 0, ""
+	}
+	if ee, ok := err.(*exec.ExitError); ok {
+		return ee.ExitCode(), strings.TrimSpace(string(out))
+	}
+	return 5, err.Error()
 }
 
 type vfC10Case struct {
@@ -450,6 +519,7 @@ func vfRunC10(c vfC10Case) *kit.Result {
 	}
 	misaligned, shifted := 0, 0
 	variants := 0
+	restarts := 0
 	inProgress := 0
 	covered := map[int]bool{}
 	for _, k := range points {
@@ -522,7 +592,33 @@ func vfRunC10(c vfC10Case) *kit.Result {
 			}
 			r.Count("crash_states_rechecked_in_untidy_directories", 1)
 		}
-		// start-up clean-up, the real one
+		// the daemon starts again: for the first crash states with debris of every stream this is the real runMain
+		// (up to the point where it waits for the camera) on a private message bus ...
+		restarted := false
+		if restarts < 5 && (len(st.others) > 0 || st.contTmp > 0) && !c.Stubborn {
+			rc, msg := vfC10RunRestart(kdir)
+			switch rc {
+			case 0:
+				restarted = true
+				restarts++
+				r.Count("restarts_through_runMain", 1)
+			case 6:
+				return fail("the daemon did not come up again after the kill: %s", msg)
+			default:
+				restarts = 99
+				r.Class("runMain_restart_unavailable")
+			}
+		}
+		// ... and the start-up clean-up function itself (idempotent after a real restart)
+		if restarted {
+			up := vfC10ReadDir(c.Sock, kout)
+			if up.msg != "" {
+				return fail("after the daemon started again: %s", up.msg)
+			}
+			if len(up.others) > 0 || up.contTmp > 0 {
+				return fail("the daemon has started again and is waiting for the camera, but the output directory still holds %v (and %d temporary files in constant-recordings) besides the complete recordings %v", up.others, up.contTmp, up.names)
+			}
+		}
 		if err := deleteTempFiles(kout); err != nil {
 			if c.Stubborn && len(vfListDir(filepath.Join(kout, vfStubbornName))) > 0 {
 				// refusing loudly is acceptable: the daemon does not start on top of what it could not clean
@@ -728,6 +824,6 @@ func vfGenC10(t *rapid.T) vfC10Case {
 
 func TestVF_C10(t *testing.T) {
 	kit.Drive(t, "C10", "TestVF_C10",
-		"generated: small Lepton/Boson streams (8x6..14x10, up to ~90 frames) with 1-3 motion recordings, optionally bad frames, 'clear' markers, a test recording and the continuous recorder, into output directories that are plain, named with the recorder's own extensions or glob metacharacters ('rec.temp', 'usb[1]/cptv', 'a*b?c', ...) or symbolic links (the directory itself / its constant-recordings sub-directory), one stream in 6 with a backlog of up to 2600 finished recordings already there, one in 6 with an undeletable entry that matches the temporary-file pattern (the clean-up may then refuse with an error, but may not report success and leave debris); in addition every crash state with debris is re-checked on copies of the directory with such undeletable entries planted and (for up to 6 states per stream) behind 2600 finished recordings; each stream is first run to completion in a child process under strace to number the file-system system calls (openat, write, close, lseek, rename*, unlink*, mkdir*) of the thread that runs handleConn; then the child is re-run and killed with SIGKILL on entering the k-th such call, for every k (thorough) or a stratified sample of ~40 points (quick: all points within 6 calls of every open/rename/unlink of a recording plus an even sample of the rest). Oracle on the surviving directory: every *.cptv decodes from header to exactly NumFrames frames and equals, frame for frame, the corresponding complete recording of the uncrashed run (a kill at a call boundary leaves exactly what a concurrent observer could see at that instant); after the real deleteTempFiles the output directory holds nothing but those complete recordings. Non-trivial: a stream with at least one crash point at which a recording was in progress (temporary artefacts present). Evaluations count the individual kills (plus one per stream); non-trivial ones are the kills at which a recording was in progress, distinct by (stream, crash point).",
+		"generated: small Lepton/Boson streams (8x6..14x10, up to ~90 frames) with 1-3 motion recordings, optionally bad frames, 'clear' markers, a test recording and the continuous recorder, into output directories that are plain, named with the recorder's own extensions or glob metacharacters ('rec.temp', 'usb[1]/cptv', 'a*b?c', ...) or symbolic links (the directory itself / its constant-recordings sub-directory), one stream in 6 with a backlog of up to 2600 finished recordings already there, one in 6 with an undeletable entry that matches the temporary-file pattern (the clean-up may then refuse with an error, but may not report success and leave debris); in addition every crash state with debris is re-checked on copies of the directory with such undeletable entries planted and (for up to 6 states per stream) behind 2600 finished recordings; each stream is first run to completion in a child process under strace to number the file-system system calls (openat, write, close, lseek, rename*, unlink*, mkdir*) of the thread that runs handleConn; then the child is re-run and killed with SIGKILL on entering the k-th such call, for every k (thorough) or a stratified sample of ~40 points (quick: all points within 6 calls of every open/rename/unlink of a recording plus an even sample of the rest). Oracle on the surviving directory: every *.cptv decodes from header to exactly NumFrames frames and equals, frame for frame, the corresponding complete recording of the uncrashed run (a kill at a call boundary leaves exactly what a concurrent observer could see at that instant); for the first five crash states with debris of every stream the daemon itself is started again (the real runMain, on a private D-Bus message bus, until it listens for the camera) and the output directory must then hold nothing but those complete recordings; for all states the same is required after the real deleteTempFiles. Non-trivial: a stream with at least one crash point at which a recording was in progress (temporary artefacts present). Evaluations count the individual kills (plus one per stream); non-trivial ones are the kills at which a recording was in progress, distinct by (stream, crash point).",
 		vfGenC10, vfRunC10)
 }
